@@ -1,7 +1,7 @@
 """A tiny ELF *writer* for workload generation (struct only, no pyelftools): a dynamic symbol table with a GNU
 hash section and a SysV hash section built over it by an own "linker" (reference hash functions from elfraw).
 
-Sections: [0] NULL  [1] .dynsym  [2] .dynstr  [3] .gnu.hash  [4] .hash  [5] .shstrtab.
+Sections: [0] NULL  [1] .dynsym  [2] .dynstr  [3] .gnu.hash  [4] .hash  [5] .shstrtab  ([6] SHT_SYMTAB_SHNDX companion).
 Used by E5 (C03): the table shapes the quantifier names and no corpus image has - bloom filters whose size is
 not a power of two, one-bucket and many-bucket tables, symoffset anywhere, chains ending exactly at the table end,
 hash collisions between present names, long and non-ASCII names, both classes and byte orders.
@@ -74,10 +74,24 @@ def build(r):
         offs[nm] = len(strtab)
         strtab += nm.encode('utf-8') + b'\0'
     syms = [_sym(cls, bo, 0, 0, 0, 0, 0, 0)]
+    entries = [['', 0, 0, 0, 0, 0, 0, 0]]       # ground truth of every field: name, value, size, bind, type, visibility, shndx, st_other top bits
+    xwords = [0]
+    vmax = (1 << cls) - 1
     for i, nm in enumerate(order):
         undef = i < nundef
-        syms.append(_sym(cls, bo, offs[nm], 0 if undef else 0x1000 + 16 * i, r.choice([0, 4, 64]), 0x12 if not undef else 0x10,
-                         0, 0 if undef else 1))
+        value = 0 if undef else r.choice([0x1000 + 16 * i, 0x1000 + 16 * i, vmax - i, 1 << (cls - 1)])
+        size = r.choice([0, 4, 64, vmax])
+        bind = r.choice([1, 1, 2, 0])
+        typ = r.choice([2, 2, 1, 0, 6, 5])
+        vis = r.choice([0, 0, 1, 2, 3])
+        shndx = 0 if undef else r.choice([1, 1, 2, 0xfff1, 0xfff2, 0xffff, 0xffff])
+        loc = r.choice([0, 0, 0, 3, 7])
+        syms.append(_sym(cls, bo, offs[nm], value, size, bind << 4 | typ, loc << 5 | vis, shndx))
+        entries.append([nm, value, size, bind, typ, vis, shndx, loc])
+        xwords.append(r.choice([0x10000 + i, 0xff00 + i, 0x01020304]) if shndx == 0xffff else 0)
+    have_xindex = r.random() < 0.7
+    xent = r.choice([4, 4, 4, 8])
+    xindex = b''.join(x.to_bytes(4, bo) + bytes(r.getrandbits(8) for _ in range(xent - 4)) for x in xwords)
     symsize = 16 if cls == 32 else 24
     entsize = symsize + r.choice([0, 0, 0, 8, 16])        # entries may be larger than the structure (sh_entsize rules)
     dynsym = b''.join(x + bytes(r.getrandbits(8) for _ in range(entsize - symsize)) for x in syms)
@@ -121,15 +135,16 @@ def build(r):
     sysv = snb.to_bytes(4, bo) + nsyms_total.to_bytes(4, bo) + b''.join(x.to_bytes(4, bo) for x in sb) + \
         b''.join(x.to_bytes(4, bo) for x in sc)
     # --- assemble the file
-    shstr = b'\0.dynsym\0.dynstr\0.gnu.hash\0.hash\0.shstrtab\0'
-    nameoff = {n: shstr.index(n.encode()) for n in ('.dynsym', '.dynstr', '.gnu.hash', '.hash', '.shstrtab')}
+    shstr = b'\0.dynsym\0.dynstr\0.gnu.hash\0.hash\0.shstrtab\0.dynsym_shndx\0'
+    nameoff = {n: shstr.index(n.encode() + b'\0') for n in ('.dynsym', '.dynstr', '.gnu.hash', '.hash', '.shstrtab', '.dynsym_shndx')}
     ehsize = 52 if cls == 32 else 64
     shsize = 40 if cls == 32 else 64
     body = bytearray(bytes(ehsize))
     pad = r.choice([0, 0, 3, 17])                # whatever precedes the tables must not matter
     body += bytes(r.getrandbits(8) for _ in range(pad))
     places = {}
-    for nm, data in (('.dynsym', dynsym), ('.dynstr', bytes(strtab)), ('.gnu.hash', gnu), ('.hash', sysv), ('.shstrtab', shstr)):
+    for nm, data in (('.dynsym', dynsym), ('.dynstr', bytes(strtab)), ('.gnu.hash', gnu), ('.hash', sysv), ('.shstrtab', shstr),
+                     ('.dynsym_shndx', xindex)):
         body += bytes(-len(body) % 8)
         places[nm] = (len(body), len(data))
         body += data
@@ -148,17 +163,22 @@ def build(r):
     body += shdr('.gnu.hash', 0x6ffffff6, 2, places['.gnu.hash'][0], places['.gnu.hash'][1], 1, 0, 8, 0)
     body += shdr('.hash', 5, 2, places['.hash'][0], places['.hash'][1], 1, 0, 4, 4)
     body += shdr('.shstrtab', 3, 0, places['.shstrtab'][0], places['.shstrtab'][1], 0, 0, 1, 0)
+    if have_xindex:
+        # [6] SHT_SYMTAB_SHNDX companion of the table: one word per symbol, the real index where st_shndx is SHN_XINDEX
+        body += shdr('.dynsym_shndx', 18, 0, places['.dynsym_shndx'][0], places['.dynsym_shndx'][1], 1, 0, 4, xent)
+    nsec = 7 if have_xindex else 6
     ident = b'\x7fELF' + bytes([1 if cls == 32 else 2, 1 if le else 2, 1, 0]) + bytes(8)
     machine = r.choice([3, 62, 40, 183, 8, 20])
     if cls == 32:
         eh = ident + (3).to_bytes(2, bo) + machine.to_bytes(2, bo) + (1).to_bytes(4, bo) + bytes(4) + bytes(4) + shoff.to_bytes(4, bo) + \
-            bytes(4) + ehsize.to_bytes(2, bo) + (32).to_bytes(2, bo) + bytes(2) + shsize.to_bytes(2, bo) + (6).to_bytes(2, bo) + (5).to_bytes(2, bo)
+            bytes(4) + ehsize.to_bytes(2, bo) + (32).to_bytes(2, bo) + bytes(2) + shsize.to_bytes(2, bo) + nsec.to_bytes(2, bo) + (5).to_bytes(2, bo)
     else:
         eh = ident + (3).to_bytes(2, bo) + machine.to_bytes(2, bo) + (1).to_bytes(4, bo) + bytes(8) + bytes(8) + shoff.to_bytes(8, bo) + \
-            bytes(4) + ehsize.to_bytes(2, bo) + (56).to_bytes(2, bo) + bytes(2) + shsize.to_bytes(2, bo) + (6).to_bytes(2, bo) + (5).to_bytes(2, bo)
+            bytes(4) + ehsize.to_bytes(2, bo) + (56).to_bytes(2, bo) + bytes(2) + shsize.to_bytes(2, bo) + nsec.to_bytes(2, bo) + (5).to_bytes(2, bo)
     body[:ehsize] = eh
     desc = dict(cls=cls, little=le, nsym=nsyms_total, symoffset=symoffset, nbuckets=nb, bloom_size=bloom_size, bloom_shift=bloom_shift,
-                sysv_nbucket=snb, sysv_tail=tail, entsize=entsize, truth=dict(names=[''] + order))
+                sysv_nbucket=snb, sysv_tail=tail, entsize=entsize, xindex=have_xindex,
+                truth=dict(names=[''] + order, entries=entries, xwords=xwords if have_xindex else None, xindex_section=6 if have_xindex else None))
     return bytes(body), desc
 
 
